@@ -32,6 +32,8 @@ static const Frag FRAGS[] = {
  {"regreedy",  "", "$a = /reg[0-9]{2,5}ex+/",                          "$a",                          "reg123exxx", "regex greedy"},
  {"relazy",    "", "$a = /lazy.{1,20}?end/",                           "$a",                          "lazy....end...end", "regex lazy"},
  {"rewide",    "", "$a = /wre[a-z]+z/ nocase wide",                    "$a",                          "W\\0R\\0E\\0a\\0b\\0z\\0", "regex wide nocase"},
+ {"reatomless","", "$a = /[0-9]{4}[a-z]{2}/",                           "$a",                          "..2024ab..", "regex atomless"},
+ {"hexatomless","", "$a = { ?? ?? 4? ?1 ?? }",                         "#a >= 0",                     "", "hex atomless"},
  {"realt",     "", "$a = /(foo|bar)baz(qux)?\\d/",                     "$a",                          "barbazqux7", "regex alt"},
  {"matches",   "", "",                                                 "\"abbbc\" matches /ab+c$/ and not \"abd\" matches /^ab+c/", "", "matches_op"},
  {"strops",    "", "",                                                 "\"foobar\" contains \"oba\" and \"FooBar\" icontains \"OBA\" and \"foo\" startswith \"fo\" and \"foo\" iequals \"FOO\"", "", "string_ops"},
